@@ -290,7 +290,7 @@ def data_read(ctx):
         calls = []
         P = symarray('p', (3, 3), real=True)      # row k = atom with the k-th smallest id (the table reader sorts by id)
         F = {i: [sp.Symbol('f%d%s' % (i, a), integer=True) for a in 'abc'] for i in ids_file}
-        box = Rec('Box', vects=V)
+        box = Rec('Box', vects=V, avect=V[0], bvect=V[1], cvect=V[2])
         atoms = Rec('Atoms', pos=P.copy())
         sysm = Rec('System', box=box, atoms=atoms, natoms=3)
 
